@@ -170,16 +170,18 @@ PROPS = {
                 'model = extracted pp_run (scan, aggregate, render) byte for byte; on the output alone: colour erasure, filter/match split of the blocks, counts add up, equal column widths',
     },
     'C17': {
-        'extra_props': ['C17b'],
+        'tpl_check': True,
+        'extra_props': ['C17b', 'C17c'],
         'ops': [('html', 300, 10000)],
-        'corr': ['corr:attrs', 'corr:html-region', 'corr:panic'],
+        'corr': ['corr:attrs', 'corr:html-region', 'corr:html-page', 'corr:panic'],
         'prop': ['C17'],
         'nontrivial': ['attrs='],
         'input_fields': 3,
         'rule': 'hand-built snapshots whose every string field (state, symbol, package, file paths, argument names, processed arguments) carries markup / attribute / URL payloads, '
                 'versioned module paths (github.com, golang.org/x, vendor, @version), race snapshots, elided stacks; ToHTML output tokenised with golang.org/x/net/html: '
                 'the tag/attribute skeleton must equal that of a benign twin of the same shape, every href scheme must be https/file/data, one h1 per bucket and one row per frame; '
-                'model = extracted src_url/pkg_url/func_class + url_normalize compared with every href/class of the content region',
+                'model = extracted src_url/pkg_url/func_class + url_normalize compared with every href/class of the content region; the WHOLE document (head, content, metadata list, legend, footer argument) '
+                'is compared byte for byte with the extracted page model (Model/HtmlPage.v), whose template literals (Model/HtmlTpl.v) are generated from stack/goroutines.tpl and checked to be current on every run',
     },
     'C18': {
         'ops': [('guess', 150, 5000)],
@@ -231,7 +233,8 @@ PROPS = {
     'C06': {
         'extra_props': ['C06b'],
         'ops': [('aggregate', 1200, 40000), ('guess', 80, 3000), ('pp', 40, 2000), ('html', 100, 3000), ('names', 300, 5000), ('scan', 250, 8000, ('-mix', 'c02'))],
-        'corr': ['corr:order', 'corr:sig', 'corr:ids', 'corr:guess', 'corr:pp:plain', 'corr:names', 'corr:panic'],
+        'tpl_check': True,
+        'corr': ['corr:order', 'corr:sig', 'corr:ids', 'corr:guess', 'corr:pp:plain', 'corr:names', 'corr:panic', 'corr:html-page'],
         'prop': ['C06'],
         'nontrivial': ['multi', 'resolved', 'blocks=', 'attrs=', 'named', 'pf='],
         'input_fields': 2,
